@@ -998,6 +998,25 @@ def f(x: fp.Real, y: fp.Real) -> tuple[fp.Real, fp.Real, fp.Real, fp.Real, fp.Re
     return (max(n, 0), max(0, n), min(0, n), min(n, 0), max(y * 0, 0), min(0, y * 0, z))
 ''', 'f', ['real', 'real'], ['semantics', 'minmax'])
 
+prog('sem_mod_signs', '''
+@fp.fpy
+def f(i: int, n: int, x: fp.Real) -> fp.Real:
+    with C4:
+        r = i % n
+        i %= 4
+    return r + x + i
+''', 'f', [('int', [-7, 7, -5]), ('int', [3, -3]), 'real'], ['semantics', 'operators'])
+
+prog('sem_ctor_keyword_arith', '''
+@fp.fpy
+def f(x: fp.Real, y: fp.Real) -> tuple[fp.Real, fp.Real]:
+    with fp.MPFloatContext(pmax=3 + 2):
+        r = x * y
+    with fp.MPSFloatContext(3 + 2, emin=-2 - 1):
+        s = x * y
+    return (r, s)
+''', 'f', ['real', 'real'], ['semantics', 'context'])
+
 # ---- analysis facts (C13 / C14 part 2) ----------------------------------------------------------------------------
 prog('vc_underflow_product', '''
 @fp.fpy
